@@ -25,6 +25,8 @@ type PropConfig struct {
 	MustHave    []string `json:"must_have"`    // functions that must produce obligations (vacuity guard)
 	NotClaimed  []string `json:"not_claimed"`  // clauses of the property statement not decided by this check
 	Bounded     []string `json:"bounded"`
+	// ExtraGroups: further package groups, each loaded and verified on its own
+	ExtraGroups [][]string `json:"extra_groups"`
 	Level       string   `json:"level"`
 }
 
@@ -202,16 +204,28 @@ func cmdCheck(args []string) int {
 		timeoutS = 120
 		second = true
 	}
-	p, err := LoadProgram(cfg.Packages, nil)
+	outDir := filepath.Join("/verif/out/smt", id)
+	os.RemoveAll(outDir)
+	os.MkdirAll(outDir, 0o755)
+	runs, err := runGroups(id, cfg, nil, outDir, timeoutS, second)
 	if err != nil {
 		// the tree does not load (does not compile): nothing can be said
 		fmt.Fprintln(os.Stderr, "load error:", err)
 		return 2
 	}
-	outDir := filepath.Join("/verif/out/smt", id)
-	os.RemoveAll(outDir)
-	os.MkdirAll(outDir, 0o755)
-	results, obls, problems := selectAndRun(p, id, cfg, outDir, timeoutS, second)
+	p := runs[0].prog
+	var results []*FuncResult
+	var obls []*Obligation
+	var problems []string
+	progOf := map[*Obligation]*Program{}
+	for _, r := range runs {
+		results = append(results, r.results...)
+		obls = append(obls, r.obls...)
+		problems = append(problems, r.problems...)
+		for _, o := range r.obls {
+			progOf[o] = r.prog
+		}
+	}
 
 	known := loadKnownFindings()
 	replayDir := filepath.Join("/verif/out/replay", id)
@@ -257,7 +271,7 @@ func cmdCheck(args []string) int {
 			continue
 		}
 		violations++
-		path, reproduced := writeReplay(p, id, o, replayDir)
+		path, reproduced := writeReplay(progOf[o], id, o, replayDir)
 		suffix := ""
 		if !reproduced {
 			suffix = " no-failing-input-found"
@@ -635,16 +649,21 @@ func runCanaries(id string, cfg *PropConfig, timeoutS int) map[string]interface{
 			continue
 		}
 		total++
-		p, err := LoadProgram(cfg.Packages, overlay)
+		outDir := filepath.Join("/verif/out/smt", id+"-canary")
+		os.RemoveAll(outDir)
+		runs, err := runGroups(id, cfg, overlay, outDir, timeoutS, false)
 		if err != nil {
 			skipped++
 			total--
 			details = append(details, filepath.Base(pf)+": skipped (does not load: "+truncate(err.Error(), 200)+")")
 			continue
 		}
-		outDir := filepath.Join("/verif/out/smt", id+"-canary")
-		os.RemoveAll(outDir)
-		_, obls, problems := selectAndRun(p, id, cfg, outDir, timeoutS, false)
+		var obls []*Obligation
+		var problems []string
+		for _, r := range runs {
+			obls = append(obls, r.obls...)
+			problems = append(problems, r.problems...)
+		}
 		bad := len(problems)
 		var first string
 		for _, o := range obls {
@@ -765,7 +784,11 @@ func cmdTrySeeds(args []string) int {
 				continue
 			}
 			covers := false
-			for _, pk := range cfg.Packages {
+			var allPkgs []string
+			for _, g := range cfg.groups() {
+				allPkgs = append(allPkgs, g...)
+			}
+			for _, pk := range allPkgs {
 				pk = strings.TrimPrefix(pk, "./")
 				for _, t := range touched {
 					if strings.HasSuffix(pk, "/...") {
@@ -780,14 +803,19 @@ func cmdTrySeeds(args []string) int {
 			if !covers {
 				continue
 			}
-			p, err := LoadProgram(cfg.Packages, overlay)
+			outDir := filepath.Join("/verif/out/smt", "seed-"+seed+"-"+id)
+			os.RemoveAll(outDir)
+			runs, err := runGroups(id, cfg, overlay, outDir, 20, false)
 			if err != nil {
 				hits = append(hits, id+":does-not-load")
 				continue
 			}
-			outDir := filepath.Join("/verif/out/smt", "seed-"+seed+"-"+id)
-			os.RemoveAll(outDir)
-			_, obls, problems := selectAndRun(p, id, cfg, outDir, 20, false)
+			var obls []*Obligation
+			var problems []string
+			for _, r := range runs {
+				obls = append(obls, r.obls...)
+				problems = append(problems, r.problems...)
+			}
 			for _, o := range obls {
 				if o.Status != "discharged" {
 					hits = append(hits, id+":"+o.ID)
